@@ -209,14 +209,15 @@ def merge_summaries(sums):
     tot["samples"] = tot["samples"][:8]
     return tot
 
-def exec_lines(binp, lines, known_ids, timeout=120):
+def exec_lines(binp, lines, known_ids, timeout=120, case_timeout=None):
     """run given input lines through harness --replay | stdrv; returns (rlines, summary, raw)"""
     fd, path = tempfile.mkstemp(prefix="replay-", suffix=".txt", dir=CACHE)
     with os.fdopen(fd, "w") as f:
         for l in lines:
             f.write(l.split(" => ")[0] + "\n")
     try:
-        res = run_pipelines(binp, [["--replay", path]], known_ids, timeout)[0]
+        extra = ["--timeout", str(case_timeout)] if case_timeout else []
+        res = run_pipelines(binp, [["--replay", path] + extra], known_ids, timeout)[0]
     finally:
         os.unlink(path)
     r, s = parse_driver(res["out"])
@@ -391,6 +392,18 @@ def main():
 
     # 5. classify
     fails = [x for x in all_r if x["kind"] in ("VIOLATION", "SPECFAIL", "MISMATCH")]
+    # a case reported as a hang is re-run alone with a generous limit before it is believed (the per-case limit is
+    # wall-clock, and the machine may be loaded)
+    hangs = [x for x in fails if x["line"].endswith("=> hang")]
+    if hangs:
+        transient = 0
+        for x in hangs[:12]:
+            r, s_, raw = exec_lines(x["bin"], [x["line"]], known_ids, timeout=180, case_timeout=45)
+            again = [y for y in r if y["kind"] in ("VIOLATION", "SPECFAIL", "MISMATCH")]
+            if not again and s_ and s_.get("lines") == 1:
+                fails.remove(x); transient += 1
+        if transient:
+            notes.append("%d case(s) exceeded the per-case time limit under load and completed normally when re-run alone" % transient)
     known_hits = {}
     for x in all_r:
         if x["kind"] == "KNOWN": known_hits.setdefault(x["known"], x)
